@@ -69,3 +69,197 @@ pub fn step(site: &'static str) {
         std::panic::panic_any(StepBudgetExceeded { site, budget });
     }
 }
+
+// -------------------------------------------------------------------------------------------------
+// H5: lock-order monitor. A drop-in for `tokio::sync::RwLock` (only `new`, `read`, `write` are used
+// in this crate) which records, per logical task, which shared locks are held in which mode and
+// where they were taken, so that a harness can check the documented global order
+// (configs 3 < blockchain 4 < mempool 5 < peers 6 < wallet 7) on every acquisition.
+
+use std::cell::RefCell;
+use std::ops::{Deref, DerefMut};
+use std::panic::Location;
+
+#[derive(Clone, Debug, PartialEq, Eq)]
+pub struct Held {
+    pub rank: u8,
+    pub write: bool,
+    pub file: &'static str,
+    pub line: u32,
+    pub token: u64,
+}
+
+#[derive(Clone, Debug)]
+pub struct Acquisition {
+    pub task: u64,
+    pub rank: u8,
+    pub write: bool,
+    pub file: &'static str,
+    pub line: u32,
+    /// what the task held at that moment (oldest first)
+    pub held: Vec<Held>,
+}
+
+thread_local! {
+    static CURRENT_TASK: Cell<u64> = Cell::new(0);
+    static HELD: RefCell<Vec<(u64, Held)>> = RefCell::new(Vec::new());
+    static LOG: RefCell<Vec<Acquisition>> = RefCell::new(Vec::new());
+    static LOG_ON: Cell<bool> = Cell::new(false);
+    static TOKEN: Cell<u64> = Cell::new(0);
+}
+
+/// the harness tells which logical task (processor of a node) is being polled
+pub fn set_current_task(task: u64) {
+    CURRENT_TASK.with(|c| c.set(task));
+}
+pub fn lock_log_start() {
+    LOG.with(|l| l.borrow_mut().clear());
+    HELD.with(|h| h.borrow_mut().clear());
+    LOG_ON.with(|o| o.set(true));
+}
+pub fn lock_log_take() -> Vec<Acquisition> {
+    LOG_ON.with(|o| o.set(false));
+    LOG.with(|l| std::mem::take(&mut *l.borrow_mut()))
+}
+/// locks currently held by `task` (for deadlock reports)
+pub fn held_by(task: u64) -> Vec<Held> {
+    HELD.with(|h| {
+        h.borrow()
+            .iter()
+            .filter(|(t, _)| *t == task)
+            .map(|(_, x)| x.clone())
+            .collect()
+    })
+}
+
+fn rank_of<T: ?Sized>() -> u8 {
+    let n = std::any::type_name::<T>();
+    if n.contains("Configuration") || n.contains("Config") {
+        3
+    } else if n.ends_with("::Blockchain") {
+        4
+    } else if n.ends_with("::Mempool") {
+        5
+    } else if n.ends_with("::PeerCollection") {
+        6
+    } else if n.ends_with("::Wallet") {
+        7
+    } else {
+        0
+    }
+}
+
+fn on_acquired(rank: u8, write: bool, loc: &'static Location<'static>) -> u64 {
+    let task = CURRENT_TASK.with(|c| c.get());
+    let token = TOKEN.with(|t| {
+        let v = t.get() + 1;
+        t.set(v);
+        v
+    });
+    let held_now: Vec<Held> = held_by(task);
+    if LOG_ON.with(|o| o.get()) {
+        LOG.with(|l| {
+            l.borrow_mut().push(Acquisition {
+                task,
+                rank,
+                write,
+                file: loc.file(),
+                line: loc.line(),
+                held: held_now,
+            })
+        });
+    }
+    HELD.with(|h| {
+        h.borrow_mut().push((
+            task,
+            Held {
+                rank,
+                write,
+                file: loc.file(),
+                line: loc.line(),
+                token,
+            },
+        ))
+    });
+    token
+}
+
+fn on_released(token: u64) {
+    HELD.with(|h| {
+        let mut h = h.borrow_mut();
+        if let Some(p) = h.iter().position(|(_, x)| x.token == token) {
+            h.remove(p);
+        }
+    });
+}
+
+#[derive(Debug)]
+pub struct RwLock<T: ?Sized> {
+    inner: tokio::sync::RwLock<T>,
+}
+
+pub struct ReadGuard<'a, T: ?Sized> {
+    guard: tokio::sync::RwLockReadGuard<'a, T>,
+    token: u64,
+}
+pub struct WriteGuard<'a, T: ?Sized> {
+    guard: tokio::sync::RwLockWriteGuard<'a, T>,
+    token: u64,
+}
+
+impl<T> RwLock<T> {
+    pub fn new(value: T) -> RwLock<T> {
+        RwLock {
+            inner: tokio::sync::RwLock::new(value),
+        }
+    }
+}
+
+impl<T: ?Sized> RwLock<T> {
+    #[track_caller]
+    pub fn read(&self) -> impl std::future::Future<Output = ReadGuard<'_, T>> {
+        let loc = Location::caller();
+        async move {
+            let guard = self.inner.read().await;
+            let token = on_acquired(rank_of::<T>(), false, loc);
+            ReadGuard { guard, token }
+        }
+    }
+    #[track_caller]
+    pub fn write(&self) -> impl std::future::Future<Output = WriteGuard<'_, T>> {
+        let loc = Location::caller();
+        async move {
+            let guard = self.inner.write().await;
+            let token = on_acquired(rank_of::<T>(), true, loc);
+            WriteGuard { guard, token }
+        }
+    }
+}
+
+impl<'a, T: ?Sized> Deref for ReadGuard<'a, T> {
+    type Target = T;
+    fn deref(&self) -> &T {
+        self.guard.deref()
+    }
+}
+impl<'a, T: ?Sized> Deref for WriteGuard<'a, T> {
+    type Target = T;
+    fn deref(&self) -> &T {
+        self.guard.deref()
+    }
+}
+impl<'a, T: ?Sized> DerefMut for WriteGuard<'a, T> {
+    fn deref_mut(&mut self) -> &mut T {
+        self.guard.deref_mut()
+    }
+}
+impl<'a, T: ?Sized> Drop for ReadGuard<'a, T> {
+    fn drop(&mut self) {
+        on_released(self.token);
+    }
+}
+impl<'a, T: ?Sized> Drop for WriteGuard<'a, T> {
+    fn drop(&mut self) {
+        on_released(self.token);
+    }
+}
